@@ -1,3 +1,3 @@
-CONSTANTS MaxFeatures = 2 MinFeatures = 0
+CONSTANTS MaxFeatures = 2 MinFeatures = 0 Avoid = {}
 SPECIFICATION Spec
 INVARIANT Emit
